@@ -8,6 +8,8 @@ pub mod c06;
 pub mod c07;
 pub mod c08;
 pub mod c09;
+pub mod c11;
+pub mod c12;
 pub mod c16;
 pub mod offtrait;
 
@@ -21,6 +23,8 @@ pub fn dispatch(ctx: &mut Ctx) -> bool {
         "C07" => c07::run(ctx),
         "C08" => c08::run(ctx),
         "C09" => c09::run(ctx),
+        "C11" => c11::run(ctx),
+        "C12" => c12::run(ctx),
         "C16" => c16::run(ctx),
         _ => return false,
     }
